@@ -155,6 +155,11 @@ func createKeyStore(blocks []*pem.Block, password string) (keyStore, error) {
 }
 
 func verifyAndBuildKeyStore(entries []*Entry, certs []*x509.Certificate) (keyStore, error) {
+	// all users of a key store need at least one key (most take the first one by default)
+	if len(entries) == 0 {
+		return nil, errorchain.NewWithMessage(heimdall.ErrConfiguration, "no keys found in the key store")
+	}
+
 	known := make(map[string]bool)
 
 	for idx, entry := range entries {
